@@ -1,5 +1,6 @@
 import Driver.Proto
 import AdaptaVerif.Check.Drawing
+import AdaptaVerif.Model.FinalSegLimits
 /-!
 Driver mode c14.  Reads the before/after drawings and the returned SepMatrix dumped by
 `harness/c14.cpp`, decides property C14 with the proven checker `Check.Drawing.cleanDrawing`
@@ -15,6 +16,15 @@ Parameters fixed here (and stated in check/props/C14.py):
 
 The explanation code below (labels, offending ids) is unproven and only used for messages; the
 verdict OK / SPECFAIL is exactly `cleanDrawing = true / false`.
+
+Tie of the final-segment limit rule (`Model/FinalSegLimits.lean`, theorems `Props/C14Limits.lean`): with the nudging
+hook of /repo the harness dumps every shiftable first/last segment of the libavoid routings that doHOLA runs with
+nudgeOrthogonalSegmentsConnectedToShapes on (`fseg` lines: ends before solving, minSpaceLimit, maxSpaceLimit).  The
+shapes of that routing are the returned nodes grown by `routepad`.  For every such segment whose ends are not within
+1e-6 of a shape boundary, the library's interval must lie inside the model's `finalLimits` interval (to 1e-6; the
+library narrows it further by the channel scan, never widens it).  A violation is reported as DIVERGE
+`finalSegLimits …` (naming the clauses that fail in the same case, if any), or - when the route-end clause, which the
+rule protects, fails in the same case - as the extra label `tie~finalSegLimits` of that SPECFAIL.
 -/
 namespace Driver.C14
 open Driver AdaptaVerif.Num AdaptaVerif.Check.RouteRect AdaptaVerif.Check.Drawing
@@ -179,6 +189,26 @@ def explain (pr : Params) (ti : TreeInfo) (before after : Drawing) (seps : List 
     if !sepHolds pr.sepTol pr.extraBdry after sp then out := out ++ explainSep pr after ti sp
   return out
 
+/-! ### tie of the final-segment limit rule -/
+open AdaptaVerif.Model.FinalSegLimits in
+/-- `none` = the ends are too close to a shape boundary to classify, `some none` = agrees, `some (some msg)` = differs -/
+def checkFseg (tol : Rat) (shapes : List Rect) (l : Array String) : Option (Option String) :=
+  match nums? (l.extract 2 7) with
+  | none => some (some "unparsable fseg line")
+  | some v =>
+    if v.size != 5 then some (some "short fseg line") else
+    let dimX := l[0]! == "0"
+    let (low, high, pos, mn, mx) := (v[0]!, v[1]!, v[2]!, v[3]!, v[4]!)
+    let a : P := if dimX then ⟨pos, low⟩ else ⟨low, pos⟩
+    let z : P := if dimX then ⟨pos, high⟩ else ⟨high, pos⟩
+    let amb := shapes.any (fun r =>
+      insideBounds a (r.shrink (-tol)) != insideBounds a (r.shrink tol) ||
+      insideBounds z (r.shrink (-tol)) != insideBounds z (r.shrink tol))
+    if amb then none else
+    let m := finalLimits dimX a z shapes
+    if m.lo - tol ≤ mn && mx ≤ m.hi + tol then some none
+    else some (some s!"conn {l[1]!} dim {l[0]!} segment ({r2s a.x},{r2s a.y})-({r2s z.x},{r2s z.y}): library limits [{r2s mn},{r2s mx}] not inside model limits [{r2s m.lo},{r2s m.hi}] (ends in shape: model {m.first || m.last}, library {l[7]!})")
+
 def dedup (xs : List String) : List String := xs.foldl (fun acc x => if acc.contains x then acc else acc ++ [x]) []
 
 def checkCase (c : Case) : CaseResult := Id.run do
@@ -229,11 +259,36 @@ def checkCase (c : Case) : CaseResult := Id.run do
      (if maxDeg ≥ 5 then "maxdeg.5+" else "maxdeg.le4", 1), (bucket "maxdeg" maxDeg, 1),
      (bucket "maxindeg" maxIn, 1), (bucket "maxoutdeg" maxOut, 1),
      ("pos." ++ (((c.get1 "pos").bind (·[0]?)).getD "?"), 1), ("size." ++ (((c.get1 "size").bind (·[0]?)).getD "?"), 1)] ++ crowd
+  -- tie of the final-segment limit rule
+  let routePad : Rat := (((c.get1 "routepad").bind (·[0]?)).bind num?).getD 0
+  let shapes : List Rect := n1.toList.map (fun n =>
+    (⟨n.cx - (n.w + routePad) / 2, n.cy - (n.h + routePad) / 2, n.cx + (n.w + routePad) / 2, n.cy + (n.h + routePad) / 2⟩ : Rect))
+  let fres := (c.get "fseg").map (checkFseg ((1 : Rat) / 1000000) shapes)
+  let fbad := fres.toList.filterMap (fun r => match r with | some (some m) => some m | _ => none)
+  let famb := (fres.filter (·.isNone)).size
+  let stats := stats ++ [("fseg", fres.size), ("fseg.ambiguous", famb), ("fseg.bad", fbad.length)]
   if ok then
+    match fbad with
+    | m :: _ =>
+      return { verdict := .diverge (((s!"finalSegLimits | {m}" ++ (if fbad.length > 1 then s!"; … ({fbad.length} segments)" else "")).take 900).toString),
+               nontrivial := true, stats := stats ++ [("tie.finalSegLimits.bad", 1)] }
+    | [] => pure ()
     return { verdict := .ok, nontrivial := moved && e1.size > 0, stats := stats ++ [("ok", 1)] }
   let growth := o[7]?.getD "1"
   let ti : TreeInfo := ⟨isTree, growth == "0" || growth == "2", iel⟩
   let fails := explain pr ti before after seps.toList
+  let labels0 := dedup (fails.map (·.1))
+  -- the tie is broken as well: if the clause this rule protects (route ends) fails, the case is a concrete failing
+  -- input for it and carries the extra label; otherwise the case is reported as the broken tie (DIVERGE), with the
+  -- labels of the clauses that fail in it, so that no known finding absorbs it
+  match fbad with
+  | m :: _ =>
+    if !labels0.contains "routeEndsAtNodes" then
+      return { verdict := .diverge (((s!"finalSegLimits | {m}" ++ (if fbad.length > 1 then s!"; … ({fbad.length} segments)" else "") ++
+                 "; clauses failing in this case: " ++ "+".intercalate labels0).take 900).toString),
+               nontrivial := true, stats := stats ++ [("tie.finalSegLimits.bad", 1)] ++ labels0.map (fun l => ("fail." ++ l, 1)) }
+  | [] => pure ()
+  let fails := fails ++ (fbad.take 1).map (fun m => ("tie~finalSegLimits", m))
   let labels := dedup (fails.map (·.1))
   -- at most two details per label, so that every failing clause is visible in the message
   let details := labels.flatMap (fun l => ((fails.filter (·.1 == l)).map (·.2)).take 2)
